@@ -130,18 +130,3 @@ fn c11_parse_u64_overflow_boundary() {
     assert!(got == want, "str::parse::<u64> == decimal grammar");
 }
 
-/// C11: try_parse_timeout on a one-entry header map is out of Kani's reach (hashbrown);
-/// duration_to_timeout: the text written for a Duration parses back to min(nanos, u64::MAX).
-#[kani::proof]
-#[kani::unwind(24)]
-#[kani::stub(std::backtrace::Backtrace::capture, bt_disabled)]
-fn c11_duration_to_timeout_roundtrip() {
-    let secs: u64 = kani::any();
-    let nanos: u32 = kani::any();
-    kani::assume(nanos < 1_000_000_000);
-    kani::assume(secs < 100);
-    let d = std::time::Duration::new(secs, nanos);
-    let s = crate::middleware::timeout::duration_to_timeout(d);
-    let back = s.parse::<u64>();
-    assert!(back == Ok(secs * 1_000_000_000 + nanos as u64));
-}
